@@ -211,8 +211,9 @@ type famCtx struct {
 func buildDoc(f *plan.StreamFamily) (doc []byte, ends []int64) {
 	doc = append(doc, f.Pad...)
 	for i, p := range f.Parts {
+		// the value ends before the part's own trailing white space
+		ends = append(ends, int64(len(doc)+len(bytes.TrimRight(p, " \t\r\n"))))
 		doc = append(doc, p...)
-		ends = append(ends, int64(len(doc)))
 		if i < len(f.Seps) {
 			doc = append(doc, f.Seps[i]...)
 		}
@@ -251,13 +252,22 @@ func (c *famCtx) report(oracle, sig, detail string, del []plan.Deliver) {
 
 func delString(del []plan.Deliver) string {
 	var sb strings.Builder
-	for i, d := range del {
+	for i := 0; i < len(del); i++ {
+		d := del[i]
 		if i > 0 {
 			sb.WriteString(" ")
+		}
+		run := 1
+		for i+run < len(del) && del[i+run] == d {
+			run++
 		}
 		fmt.Fprintf(&sb, "%d", d.N)
 		if d.Err != "" {
 			sb.WriteString("!" + d.Err)
+		}
+		if run > 2 {
+			fmt.Fprintf(&sb, "x%d", run)
+			i += run - 1
 		}
 	}
 	return sb.String()
@@ -311,6 +321,15 @@ func (c *famCtx) checkCommon(run streamRun, del []plan.Deliver) {
 	if len(c.f.Ops) == 0 {
 		for i, o := range run.Obs {
 			if o.Class != "ok" || i >= len(c.ends) || !json.Valid(c.f.Parts[i]) {
+				break
+			}
+			if hasFlag(c.f.Flags, "usenumber") || hasFlag(c.f.Flags, "disallowunknown") {
+				break
+			}
+			// the whole part is the value only if buffer decoding of the part
+			// gives this very value (a typed destination may stop early, e.g.
+			// 1.5 into an int: input-space leniency, not this oracle's business)
+			if uv, uerr, up := unmarshalInto(c.ti, c.f.Parts[i]); up != "" || uerr != nil || uv != o.Val {
 				break
 			}
 			if o.Off != c.ends[i] {
